@@ -183,11 +183,11 @@ def errnos_for(op):
     if k == "OPEN_W":
         return ["EACCES", "ENOSPC", "EMFILE", "EROFS", "EIO"]
     if k in ("OPEN_R", "OPENDIR"):
-        return ["EACCES", "EMFILE", "EIO", "ENOENT"]
+        return ["EACCES", "EMFILE", "EIO"]   # not ENOENT: that would be a lie about the tree, not an I/O failure
     if k in ("READ", "READDIR"):
         return ["EIO"]
     if k == "STAT":
-        return ["EACCES", "EIO", "ENOENT"]
+        return ["EACCES", "EIO"]
     if k == "UNLINK":
         return ["EACCES", "EIO"]
     return ["EIO"]
